@@ -1,0 +1,119 @@
+//go:build verif
+
+// Contracts for gzv (contract-based deductive verification, /verif). Comment-only file.
+package load
+
+// ---------------------------------------------------------------------------------------------
+// C02 adaptive shedder (float64 over the reals; atomics as plain cells; CPU usage and the overload checker are opaque inputs).
+// Ghost observations of one Allow: gOver / gHot (the two overload tests), gMF (capacity estimate), gF (overload factor).
+// ---------------------------------------------------------------------------------------------
+//@ ghost var gOver bool
+//@ ghost var gHot bool
+//@ ghost var gMF float64
+//@ ghost var gF float64
+//@ spec shOK(as *adaptiveShedder) bool = as.overloadTime != nil && as.droppedRecently != nil && as.passCounter != nil && as.rtCounter != nil &&
+//@      collection.rwOK(as.passCounter) && collection.rwOK(as.rtCounter) && as.cpuThreshold < 1000 && as.windowScale > 0.0
+
+//@ func (as *adaptiveShedder) systemOverloaded
+//@   property C02
+//@   flag nopanic:systemOverloadChecker noheap:systemOverloadChecker
+//@   requires as.overloadTime != nil
+//@   ensures  result == ret(systemOverloadChecker) && argOf(systemOverloadChecker, 0) == as.cpuThreshold && calls(systemOverloadChecker) == old(calls(systemOverloadChecker)) + 1
+//@   ensures  implies(result, adVal[as.overloadTime] == now) && implies(!result, adVal[as.overloadTime] == old(adVal[as.overloadTime]))
+//@   modifies adVal[as.overloadTime], calls(systemOverloadChecker)
+
+// still hot: shedding was in progress and the CPU was overloaded at an Allow within the preceding second
+//@ func (as *adaptiveShedder) stillHot
+//@   property C02
+//@   requires as.overloadTime != nil && as.droppedRecently != nil
+//@   ensures  result == (old(abVal[as.droppedRecently]) && adVal[as.overloadTime] != 0 && now - adVal[as.overloadTime] < time.Second)
+//@   ensures  implies(result, abVal[as.droppedRecently])
+//@   modifies abVal[as.droppedRecently]
+
+//@ func (as *adaptiveShedder) overloadFactor
+//@   property C02
+//@   float real
+//@   requires as.cpuThreshold < 1000
+//@   ensures  0.1 <= result && result <= 1.0
+//@   modifies nothing
+
+//@ func (as *adaptiveShedder) maxPass
+//@   property C02
+//@   requires collection.rwOK(as.passCounter)
+//@   ensures  result >= 1
+//@   modifies nothing
+//@   call Reduce#0: invariant result >= 1
+
+//@ func (as *adaptiveShedder) minRt
+//@   property C02
+//@   float real
+//@   requires collection.rwOK(as.rtCounter)
+//@   ensures  result <= 1000.0
+//@   modifies nothing
+//@   call Reduce#0: invariant result <= 1000.0
+
+//@ func (as *adaptiveShedder) maxFlight
+//@   property C02
+//@   float real
+//@   requires shOK(as)
+//@   ensures  result >= 1.0
+//@   modifies nothing
+
+//@ func (as *adaptiveShedder) highThru
+//@   property C02
+//@   float real
+//@   requires shOK(as)
+//@   ghost at after maxFlight#0: gMF = ret
+//@   ghost at after overloadFactor#0: gF = ret
+//@   ensures  result == (as.avgFlying > gMF*gF && real(as.flying) > gMF*gF)
+//@   ensures  gMF >= 1.0 && 0.1 <= gF && gF <= 1.0
+//@   modifies gMF, gF
+
+// sheds only if overloaded (now, or within the last second while shedding) and the in-flight count exceeds 10% of the capacity estimate
+//@ func (as *adaptiveShedder) shouldDrop
+//@   property C02
+//@   float real
+//@   flag nopanic:systemOverloadChecker noheap:systemOverloadChecker
+//@   requires shOK(as)
+//@   ghost at after systemOverloaded#0: gOver = ret
+//@   ghost at after stillHot#0: gHot = ret
+//@   ensures  implies(result, (gOver || gHot) && real(as.flying) > gMF*gF && as.avgFlying > gMF*gF && gMF >= 1.0 && gF >= 0.1)
+//@   ensures  implies(result, 10.0*real(as.flying) > 1.0)
+//@   ensures  implies(gOver && real(as.flying) > gMF && as.avgFlying > gMF && gMF >= 1.0, result)
+//@   ensures  gOver == ret(systemOverloadChecker, 0) && as.flying == old(as.flying) && as.avgFlying == old(as.avgFlying)
+//@   modifies gOver, gHot, gMF, gF, adVal[as.overloadTime], abVal[as.droppedRecently], calls(systemOverloadChecker)
+
+//@ func (as *adaptiveShedder) addFlying
+//@   property C02
+//@   float real
+//@   ensures  as.flying == old(as.flying) + delta
+//@   ensures  implies(delta >= 0, as.avgFlying == old(as.avgFlying))
+//@   modifies as.flying, as.avgFlying
+
+// in-flight conservation: +1 on admission, nothing on rejection, -1 when the promise is resolved
+//@ func (as *adaptiveShedder) Allow
+//@   property C02
+//@   float real
+//@   flag nopanic:systemOverloadChecker noheap:systemOverloadChecker
+//@   results p, err
+//@   requires shOK(as)
+//@   ensures  implies(err != nil, err == ErrServiceOverloaded && p == nil && as.flying == old(as.flying) && abVal[as.droppedRecently])
+//@   ensures  implies(err != nil, (gOver || gHot) && real(old(as.flying)) > gMF*gF && gMF >= 1.0 && gF >= 0.1 && 10.0*real(old(as.flying)) > 1.0)
+//@   ensures  implies(err == nil, p != nil && as.flying == old(as.flying) + 1)
+//@   ensures  implies(gOver && real(old(as.flying)) > gMF && old(as.avgFlying) > gMF && gMF >= 1.0, err != nil)
+
+//@ func (p *promise) Fail
+//@   property C02
+//@   float real
+//@   requires p.shedder != nil
+//@   ensures  p.shedder.flying == old(p.shedder.flying) - 1
+//@ func (p *promise) Pass
+//@   property C02
+//@   float real
+//@   requires p.shedder != nil && shOK(p.shedder)
+//@   ensures  p.shedder.flying == old(p.shedder.flying) - 1
+
+//@ func (s nopShedder) Allow
+//@   property C02
+//@   results p, err
+//@   ensures err == nil && p != nil
